@@ -276,14 +276,21 @@ func (c *c09Run) resetExpect(n uint64, h common.Hash) {
 func (c *c09Run) step(s c09Step) {
 	ctx := context.Background()
 	switch s.Op {
-	case "send", "sendfail":
+	case "send", "sendfail", "cancel":
 		c.node.mu.Lock()
 		c.node.pending = s.A
 		c.node.fail["send"] = s.Op == "sendfail"
 		c.node.lastTx = nil
 		c.node.mu.Unlock()
-		to := common.HexToAddress("0xc09")
-		h, err := c.client.Send(ctx, &TxRequest{To: &to, CallData: []byte{byte(len(c.hashes))}, Value: big.NewInt(0)})
+		var h common.Hash
+		var err error
+		if s.Op == "cancel" {
+			// same-nonce replacement by the client itself
+			h, err = c.client.CancelTx(ctx, c.txHash(s.H))
+		} else {
+			to := common.HexToAddress("0xc09")
+			h, err = c.client.Send(ctx, &TxRequest{To: &to, CallData: []byte{byte(len(c.hashes))}, Value: big.NewInt(0)})
+		}
 		c.node.mu.Lock()
 		c.node.fail["send"] = false
 		tx := c.node.lastTx
@@ -403,6 +410,16 @@ func (c *c09Run) step(s c09Step) {
 			if !c.awaitParked(c09KBlock, time.Duration(700*c.slow)*time.Millisecond) {
 				return
 			}
+		}
+		c.node.release(c09KBlock)
+		c.quiesce()
+	case "tick":
+		// a poll triggered by the ticker alone: no new-transaction signal is given
+		if c.exited() {
+			return
+		}
+		if !c.awaitParked(c09KBlock, time.Duration(900*c.slow)*time.Millisecond) {
+			return
 		}
 		c.node.release(c09KBlock)
 		c.quiesce()
@@ -804,10 +821,98 @@ func c09Directed(tr string) []struct {
 			S("mine", 1, 1, 0, ""), S("mine", 3, 0, 0, ""), S("mine", 5, 1, 0, ""), S("block", 0, 1, 5, ""), S("poll", 0, 0, 0, ""), S("pend", 0, 0, 0, "")),
 		mk("reorg", 0, S("send", 0, 0, 0, ""), S("watch", 1, 0, 0, ""), S("mine", 1, 1, 0, ""), S("hold", 0, 1, 0, c09KBatch), S("block", 0, 1, 1, ""),
 			S("poll", 0, 0, 0, ""), S("unmine", 1, 0, 0, ""), S("rel", 0, 0, 0, c09KBatch), S("pend", 0, 0, 0, "")),
+		mk("client-cancel", 0, S("send", 0, 0, 0, ""), S("watch", 1, 0, 0, ""), S("cancel", 1, 0, 0, ""), S("watch", 2, 0, 0, ""),
+			S("watchraw", 1, 0, 0, ""), S("pend", 0, 0, 0, ""), S("mine", 2, 1, 0, ""), S("block", 0, 1, 1, ""), S("poll", 0, 0, 0, ""),
+			S("pend", 0, 0, 0, ""), S("watch", 1, 0, 0, ""), S("watch", 2, 0, 0, ""), S("block", 0, 2, 1, ""), S("poll", 0, 0, 0, ""),
+			S("pend", 0, 0, 0, "")),
+		mk("client-cancel-loses", 0, S("send", 0, 0, 0, ""), S("watch", 1, 0, 0, ""), S("cancel", 1, 0, 0, ""), S("watch", 2, 0, 0, ""),
+			S("pend", 0, 0, 0, ""), S("mine", 1, 1, 0, ""), S("block", 0, 1, 1, ""), S("poll", 0, 0, 0, ""), S("pend", 0, 0, 0, "")),
+		mk("client-cancel-mined", 0, S("send", 0, 0, 0, ""), S("mine", 1, 1, 0, ""), S("cancel", 1, 0, 0, ""), S("cancel", 7, 0, 0, ""),
+			S("pend", 0, 0, 0, ""), S("block", 0, 1, 1, ""), S("poll", 0, 0, 0, ""), S("pend", 0, 0, 0, "")),
+		mk("client-cancel-inflight", 0, S("send", 0, 0, 0, ""), S("watch", 1, 0, 0, ""), S("hold", 0, 1, 0, c09KBatch), S("block", 0, 1, 1, ""),
+			S("poll", 0, 0, 0, ""), S("cancel", 1, 0, 0, ""), S("watch", 2, 0, 0, ""), S("mine", 2, 0, 0, ""), S("rel", 0, 0, 0, c09KBatch),
+			S("pend", 0, 0, 0, ""), S("hold", 0, 0, 0, c09KBatch), S("block", 0, 2, 1, ""), S("poll", 0, 0, 0, ""), S("pend", 0, 0, 0, "")),
+		mk("client-cancel-twice", 2, S("send", 0, 0, 0, ""), S("cancel", 1, 0, 0, ""), S("cancel", 2, 0, 0, ""), S("watch", 1, 0, 0, ""),
+			S("watch", 2, 0, 0, ""), S("watch", 3, 0, 0, ""), S("pend", 0, 0, 0, ""), S("mine", 3, 1, 0, ""), S("block", 0, 1, 1, ""),
+			S("poll", 0, 0, 0, ""), S("pend", 0, 0, 0, "")),
+		// a waiter whose new-transaction signal is lost (watch loop busy) waits for the next NEW block
+		mk("lost-signal", 0, S("send", 0, 0, 0, ""), S("hold", 0, 1, 0, c09KNonce), S("block", 0, 1, 0, ""), S("poll", 0, 0, 0, ""),
+			S("watch", 1, 0, 0, ""), S("rel", 0, 0, 0, c09KNonce), S("hold", 0, 0, 0, c09KNonce), S("mine", 1, 1, 0, ""),
+			S("block", 0, 1, 1, ""), S("tick", 0, 0, 0, ""), S("pend", 0, 0, 0, ""), S("tick", 0, 0, 0, ""), S("pend", 0, 0, 0, ""),
+			S("block", 0, 2, 1, ""), S("tick", 0, 0, 0, ""), S("pend", 0, 0, 0, "")),
 		mk("close-idle", 0, S("send", 0, 0, 0, ""), S("watch", 1, 0, 0, ""), S("watchraw", 1, 0, 0, ""), S("pend", 0, 0, 0, ""),
 			S("hold", 0, 1, 0, c09KBatch), S("mine", 1, 1, 0, ""), S("block", 0, 1, 1, ""), S("poll", 0, 0, 0, ""), S("close", 0, 0, 0, ""),
 			S("watch", 1, 0, 0, ""), S("rel", 0, 0, 0, c09KBatch)),
 	}
+}
+
+// c09Exhaustive enumerates every schedule of at most k letters over a small alphabet, after the
+// fixed prefix "send tx 1 (nonce 0); hold batch replies". Sequences that contain a letter which
+// cannot apply (release before any poll, second close, poll after close, ...) are skipped.
+func c09Exhaustive(k int, tr string) []c09In {
+	letters := []byte("abcdef")
+	var out []c09In
+	var rec func(seq []byte)
+	build := func(seq []byte) (c09In, bool) {
+		in := c09In{Transport: tr, Steps: []c09Step{c09St("send", 0, 0, 0, ""), c09St("hold", 0, 1, 0, c09KBatch)}}
+		blk := uint64(0)
+		seenPoll, closed, mined := false, false, false
+		var prev byte
+		for _, x := range seq {
+			switch x {
+			case 'a':
+				in.Steps = append(in.Steps, c09St("watch", 1, 0, 0, ""))
+			case 'b':
+				if closed {
+					return in, false
+				}
+				blk++
+				seenPoll = true
+				in.Steps = append(in.Steps, c09St("block", 0, blk, 1, ""), c09St("poll", 0, 0, 0, ""))
+			case 'c':
+				if mined {
+					return in, false
+				}
+				mined = true
+				in.Steps = append(in.Steps, c09St("mine", 1, 1, 0, ""))
+			case 'd':
+				if !seenPoll {
+					return in, false
+				}
+				in.Steps = append(in.Steps, c09St("rel", 0, 0, 0, c09KBatch))
+			case 'e':
+				if closed {
+					return in, false
+				}
+				closed = true
+				in.Steps = append(in.Steps, c09St("close", 0, 0, 0, ""))
+			case 'f':
+				if prev == 'f' {
+					return in, false
+				}
+				in.Steps = append(in.Steps, c09St("pend", 0, 0, 0, ""))
+			}
+			prev = x
+		}
+		return in, true
+	}
+	rec = func(seq []byte) {
+		if len(seq) > 0 {
+			if in, ok := build(seq); ok {
+				out = append(out, in)
+			} else {
+				return // every extension contains the same inapplicable letter
+			}
+		}
+		if len(seq) == k {
+			return
+		}
+		for _, l := range letters {
+			rec(append(append([]byte{}, seq...), l))
+		}
+	}
+	rec(nil)
+	return out
 }
 
 func c09Random(r *rand.Rand, tr string) c09In {
@@ -925,6 +1030,21 @@ func TestVerifC09(t *testing.T) {
 				all = append(all, entry{d.class + "/" + tr, d.in})
 			}
 		}
+		if e.Tier == "thorough" {
+			k := 5
+			if s := os.Getenv("C09_K"); s != "" {
+				fmt.Sscanf(s, "%d", &k)
+			}
+			for _, tr := range []string{"mock", "rpc"} {
+				kk := k
+				if tr == "mock" {
+					kk = k + 1 // the function-mock transport is cheaper: one letter more
+				}
+				for _, in := range c09Exhaustive(kk, tr) {
+					all = append(all, entry{fmt.Sprintf("exhaustive-%d/%s", kk, tr), in})
+				}
+			}
+		}
 		for i := 0; i < e.N; i++ {
 			tr := "mock"
 			if i%2 == 1 {
@@ -939,6 +1059,9 @@ func TestVerifC09(t *testing.T) {
 	}
 	defer os.RemoveAll(dir)
 	workers := 8
+	if e.Tier == "thorough" {
+		workers = 12
+	}
 	if len(all) < workers {
 		workers = len(all)
 	}
